@@ -29,3 +29,9 @@ chk("C15", "exploration",
     "For ~50 comparable key types (all basic kinds, named versions, pointers, channels, interfaces holding look-alike values of different dynamic types incl. same-named local types, arrays and structs of those to depth 2 with separator/escape-confusable strings, NaN, +-0) and an adversarial key set each: ALL histories up to depth 3-4 (quick) / 4-6 (thorough) over {insert, delete, read-modify-write, range-while-deleting, range-while-inserting} are replayed on fresh maps (make and literal), and len / lookup / comma-ok / range multiset are digested after every step; plus key-equality matrices, nil-map reads/writes, unhashable dynamic keys.",
     "Trusted: native Go maps as the reference. Iteration order is never observed. Key sets are small (3-6 keys per type) and chosen adversarially from the keyFor encodings read in the code.",
     "DESIGN.md section 3 C15", "differential harness")
+
+chk("C07", "exploration",
+    "exhaustive product (type shape x copy context x mutated side) + aliasing probes, each program differential against native Go (plain and minified)",
+    "16 array/struct shapes (depth <= 2; typed-array-backed and generic arrays, nested/embedded structs, arrays of structs, structs with pointer/slice/interface/func/64-bit/complex fields) x 32 copy contexts (every clone site read in the translator: assignment forms, arguments, variadics, results read from globals/derefs/fields and consumed directly, named results, range over slice/array/pointer-to-array/map, channel send/receive, select, map/slice/array/field store and load, composite literals, map keys, interface boxing/unboxing/type switch, value receivers through value/pointer/interface/embedding, method values and expressions, deref load/store, closures, append, copy, go/defer arguments, slice-to-array conversions, swaps, zero values) with the deepest leaf mutated on either side; about 90 aliasing probes (pointers to variables, fields, elements, package variables, pointer identity, 2- and 3-index subslices, append within/beyond capacity, array pointers from slices, maps, channels, closures, range with index writes, linked structures).",
+    "Trusted: native Go as the reference. Shapes deeper than 2 and contexts not listed are not explored. Implementation-defined values (cap after growth) are never printed. GopherJS's documented refusal to convert non-numeric SUBslices to array pointers is outside the alphabet.",
+    "DESIGN.md section 3 C07", "differential harness")
